@@ -43,6 +43,7 @@ instance : Sub Pt := ⟨sub⟩
 instance : Zero Pt := ⟨zero⟩
 instance : SMul Fr Pt := ⟨smul⟩
 instance : SMul Nat Pt := ⟨nsmul⟩
+instance : Inhabited Pt := ⟨zero⟩
 
 def bytes (p : Pt) : Bytes := Proj.encode Fp.lexLargest Zp.bytesBE p
 def equal (p q : Pt) : Bool := Proj.equalE p q
